@@ -149,6 +149,7 @@ func runOne(t *testing.T, tape *simrt.Tape, a *Args, w WorldFunc, seed uint64, i
 		}()
 		synctest.Test(t, func(t *testing.T) {
 			s := simrt.New(tape)
+			s.Prop = a.Prop
 			s.Verbose = a.Verbose
 			s.KeepTrace = len(keepTrace) > 0 && keepTrace[0]
 			defer func() {
